@@ -253,3 +253,61 @@ func H_C14_extremes() {
 	vrtAssert(refEqual(r1, r2), "result depends on the Go type that carries the number")
 	vrtReach("compared")
 }
+
+// H_C14_coerce: integer parameters given as huge, exactly representable values
+// (powers of two around the limits of int64 / uint64 and of the float formats)
+// in every carrier that holds the value exactly: all carriers give the same
+// outcome (the same value, or an error of the same class).
+var c14CoerceExprs = []string{"find_first('abcabc', 'c', a)", "find_last('abcabc', 'c', a)", "find_first('abcabc', 'c', `1`, a)", "split('a,b,c', ',', a)", "replace('aaa', 'a', 'b', a)", "find_first('abcabc', 'c', -a)"}
+
+type c14Huge struct {
+	text string
+	f64  float64
+	f32  float32
+	hasI bool
+	i    int64
+	hasU bool
+	u    uint64
+}
+
+var c14HugeValues = []c14Huge{
+	{"9007199254740992", 9007199254740992, 9007199254740992, true, 9007199254740992, true, 9007199254740992},
+	{"4611686018427387904", 4611686018427387904, 4611686018427387904, true, 4611686018427387904, true, 4611686018427387904},
+	{"9223372036854775808", 9223372036854775808, 9223372036854775808, false, 0, true, 9223372036854775808},
+	{"18446744073709551616", 18446744073709551616, 18446744073709551616, false, 0, false, 0},
+	{"-9223372036854775808", -9223372036854775808, -9223372036854775808, true, -9223372036854775808, false, 0},
+	{"-18446744073709551616", -18446744073709551616, -18446744073709551616, false, 0, false, 0},
+	{"9223372036854774784", 9223372036854774784, 0, true, 9223372036854774784, true, 9223372036854774784},
+	{"2147483648", 2147483648, 2147483648, true, 2147483648, true, 2147483648},
+	{"4", 4, 4, true, 4, true, 4},
+}
+
+func H_C14_coerce() {
+	expr := c14CoerceExprs[vrtChoose("expr", len(c14CoerceExprs))]
+	vrtNote("template:" + expr)
+	h := c14HugeValues[vrtChoose("value", len(c14HugeValues))]
+	d, derr := decimal128.Parse(h.text)
+	vrtAssume(derr == nil)
+	carriers := []any{json.Number(h.text), d, h.f64}
+	if h.f32 != 0 {
+		carriers = append(carriers, h.f32)
+	}
+	if h.hasI {
+		carriers = append(carriers, h.i)
+	}
+	if h.hasU {
+		carriers = append(carriers, h.u)
+	}
+	k := 1 + vrtChoose("carrier", 5)
+	vrtAssume(k < len(carriers))
+	r1, err1 := Search(expr, map[string]any{"a": carriers[0]})
+	r2, err2 := Search(expr, map[string]any{"a": carriers[k]})
+	vrtAssert((err1 == nil) == (err2 == nil), "one number type fails where the other succeeds")
+	if err1 != nil || err2 != nil {
+		if err1 != nil && err2 != nil {
+			vrtAssert(classOf(err1) == classOf(err2), "error category depends on the Go number type")
+		}
+		return
+	}
+	vrtAssert(refEqual(r1, r2), "result depends on the Go type that carries the number")
+}
